@@ -167,4 +167,6 @@ theorem json_add_member_failure_changes_nothing : type_of% @Cjet.Props.CjsonTree
 theorem json_add_member_attaches_last : type_of% @Cjet.Props.CjsonTree.add_member_attaches_last := @Cjet.Props.CjsonTree.add_member_attaches_last
 theorem json_add_member_conserves_blocks : type_of% @Cjet.Props.CjsonTree.add_member_conserves_blocks := @Cjet.Props.CjsonTree.add_member_conserves_blocks
 
+theorem json_replace_checked_failure_changes_nothing : type_of% @Cjet.Props.CjsonTree.replace_checked_failure_changes_nothing := @Cjet.Props.CjsonTree.replace_checked_failure_changes_nothing
+
 end Cjet.Props.C15
